@@ -52,6 +52,10 @@ def rpos(spec, n):
 
 
 def rwin(spec, n):
+    if spec[0] == 'a8':   # whole-byte window: start and end multiples of 8 (fast paths for aligned ranges)
+        s = 8 * (spec[1] % (n // 8 + 1))
+        e = s + 8 * (spec[2] % ((n - s) // 8 + 1))
+        return (None if s == 0 and spec[3] % 3 == 0 else s), (None if e == n and spec[3] % 2 == 0 else e)
     if spec[0] == 'w':
         s = spec[1] % (n + 1)
         e = s + spec[2] % (n - s + 1)
@@ -518,6 +522,8 @@ def pos_spec(draw):
 
 @st.composite
 def win_spec(draw):
+    if draw(st.integers(0, 6)) == 0:
+        return ['a8', draw(raw), draw(raw), draw(st.integers(0, 5))]
     if draw(st.integers(0, 5)) == 0:
         a = draw(pos_spec()) if draw(st.integers(0, 3)) else ['n']
         b = draw(pos_spec()) if draw(st.integers(0, 3)) else ['n']
@@ -644,10 +650,22 @@ def op_st(draw, names):
     return op
 
 
+BIG_FAMILIES = (FAMILIES['reverse_rotate'], FAMILIES['set_invert'], FAMILIES['byteswap'], FAMILIES['shift_mul_logic'])
+
+
+@st.composite
+def big_init(draw):
+    """1024 ... ~5900 bits: whole bytes (optionally 1..7 more) - sizes at which a block / fast path may switch in"""
+    nbytes = draw(st.sampled_from([128, 128, 129, 130, 160, 255, 256, 257, 384, 512, 513, 640, 700]) | st.integers(128, 730))
+    return draw(bits_of_len(8 * nbytes + draw(st.sampled_from([0, 0, 0, 1, 4, 7]))))
+
+
 def single_case(names):
     @st.composite
     def f(draw, tier):
         mx = 200 if tier == 'quick' else 700
+        if names in BIG_FAMILIES and draw(st.integers(0, 11)) == 0:
+            return {'cls': draw(mcls_st), 'init': draw(big_init()), 'steps': [draw(op_st(names))], 'opt_ba': draw(st.sampled_from([False, False, False, True]))}
         if names == ['byteswap']:
             init = draw(bits_st(max_len=mx))
             if draw(st.booleans()):
